@@ -130,7 +130,7 @@ theorem handle_getRequest (p : Prog) (srv : Srv) :
 theorem decode_payload (env : Env) (v : PVal) :
     decode env (.payload v.dumps true) =
       match v with
-      | .exc x => .error (onError env x)
+      | .exc x => .error x
       | v => .ok (wrap v) := by
   simp only [decode, PVal.loads_dumps]
   cases v with
@@ -139,7 +139,7 @@ theorem decode_payload (env : Env) (v : PVal) :
   | plain v => cases v <;> rfl
 
 theorem decode_exc (env : Env) (x : Exc) :
-    decode env (.payload (.exc x.dumps) true) = .error (onError env x) := by
+    decode env (.payload (.exc x.dumps) true) = .error x := by
   have := decode_payload env (.exc x)
   simpa [PVal.dumps] using this
 
